@@ -30,6 +30,10 @@ CHECKS = {
          "PARTIAL: abortive resets (RST) and kernel delivery are outside the model - there the claim is 'a prefix, each at most once'", "6/C18"),
  "C11": ("Theorems (generic in the store: every outcome the storage layer can produce): every response the handler emits for any request of any opcode satisfies the layout predicate wellFormed (opcode and opaque echoed, status from the protocol table, 4 flag bytes exactly on hits, key echoed iff get-key, 8 bytes for counters, message text on errors, body length = extras+key+value) (C11_wellformed); a well-formed response occupies exactly 24+body_length bytes (C11_frame_length); magic 0x81 and data type 0. Tie: seq suite over all opcodes incl. unsupported and non-standard frames; every response of every suite is parsed by an independent parser in the harness.",
          "value lengths below 2^32-300 (body_length is a u32)", "6/C11"),
+ "C14": ("Theorems (sequential clause, every limit incl. limits below one record, every record size, EVERY victim choice - the choice tape is universally quantified): the eviction loop keeps 'accounted usage >= stored bytes + pending record' and ends with usage <= limit or an emptied store (evictLoop_spec); after a store the bytes stored are <= max(limit, record) <= limit + record just written and the accounting still covers the content (C14_sequential); delete/get/flush preserve coverage (C14_covers_*); the loop consumes at most one victim per iteration and terminates (C14_terminates); an acknowledged store leaves its record stored whatever was evicted (C14_victim_not_pending). Tie: policy suite with a recording Cache between RandomPolicy and MemoryStore - observed victims are the model's choice tape (validated), accounted usage (hook), stored bytes and content compared after every command. Concurrent clause: see DESIGN.md (schedule enumeration, recorded finding).",
+         "counter arithmetic does not wrap (usage + record < 2^64); the concurrent clause is not proved (PARTIAL)", "6/C14"),
+ "C15": ("The full statement is FALSE of code and model: kernel-evaluated witnesses (C15_overwrite_drifts, C15_failed_cas_drifts, C15_flush_drifts, C15_expiry_drifts, C15_rmw_drifts, C15_drift_evicts_live_key) are the recorded findings (known_findings.json, one per drift class; the check prints KNOWN-FINDING for drift of those classes and reports any other). Proved part (C15_partial_*): fresh-key stores without pressure and reads of live keys keep the accounting exact and evict nothing. Tie: policy suite with the accounted usage read through the hook after every command; the model reproduces the drift exactly, so an accounting change of any other kind (e.g. delete no longer subtracting, flush zeroing the counter) breaks the correspondence or the victim validation with a concrete input.",
+         "known findings: accounting drifts upward on overwrite, rejected store, flush, lazy expiry (a redesign, not a patch)", "6/C15"),
  "C19": ("Theorems (generic in the store): switching any request to the quiet opcode of its command leaves the store after handling identical and relates the responses exactly as the property says (errors identical apart from the opcode, successful quiet mutations and quiet get misses silent, quiet hits same payload) (C19_step); for command sequences of any length and any subset of positions switched, the final store is identical (C19_histories). Tie: seq suite in twin mode - every generated program is re-run with a random subset of positions toggled loud<->quiet; dumps after every request and the response relation are compared on the implementation, and both runs are compared with the model.",
          "the eleven commands with a quiet twin: set/add/replace/delete/incr/decr/append/prepend/flush/get/getk", "6/C19"),
  "C08": ("Theorems: delete removes exactly the addressed key (frame), not found / key exists rules, deleted stays gone; immediate flush hides everything at all times, delayed flush hides everything from now+n on, flushed stays gone over any history until re-stored, a flush never makes anything more visible, later stores unaffected. Tie: seq multi-key profile with deletes and immediate/delayed flushes at non-zero times; membership-and-deadline oracle.",
